@@ -25,7 +25,7 @@ Definition rec_final (me : host) (m : mgr_mem) (master : host) (st : option repl
   | None =>
       if negb stuck then Ret (clk0, m)
       else if negb (N.eqb master me) then rec_stuck m clk0
-      else Panic 97        (* no replica status, stuck, and recorded master itself: sstatus is dereferenced *)
+      else Ret (clk0, m)   (* no replica status, stuck, and recorded master itself: wait for the manager *)
   | Some rs =>
       if stuck && negb (N.eqb master me) then rec_stuck m clk0
       else if permanently_lost rs mg then
@@ -43,7 +43,7 @@ Definition rec_with_master (me : host) (m : mgr_mem) (stuck_at : Z) (st : option
   u <- update_hosts_info m ;;
   let m := snd u in
   if negb (fst u) then Ret (stuck_at, m) else
-  if negb (mem_host master (map fst (all_hosts m))) then Panic 60 else
+  if negb (mem_host master (map fst (all_hosts m))) then Ret (stuck_at, m) else   (* recorded master not registered *)
   g <- gtid_executed 60 master ;;
   match snd g with Some _ => Ret (stuck_at, m) | None =>
   w <- is_waiting_ack 67 me ;;
